@@ -49,6 +49,7 @@ func main() {
 	}
 	cfg := &runCfg{tier: *tier, seed: *seed, rng: rand.New(rand.NewSource(*seed)), replay: *replay, shard: *shard, shards: *shards, stats: map[string]int{}}
 	cfg.out = newOut(*out)
+	startMemGuard()
 	err := r(cfg)
 	for k, v := range cfg.stats {
 		cfg.out.line(sx("stat", k, v))
